@@ -72,6 +72,10 @@ class ConfigurationDict(UserDict):
         if valid:
             # only set valid keys
             if self.section:
+                if isinstance(value, bytes):
+                    # We never store byte values (see also
+                    # `RTDCWriter.store_metadata`).
+                    value = value.decode("utf-8")
                 typ = dfn.get_config_value_type(self.section, key)
                 if typ is not None and not isinstance(value, typ):
                     warnings.warn(
